@@ -38,6 +38,20 @@ fn one_prod_rules(nr: usize) -> String {
     }
     s
 }
+fn tokens_one_prod(nt: usize) -> String {
+    // nt tokens in a few productions (so that the production count stays small)
+    let mut s = String::from("%start R\n%%\nR: ");
+    for t in 0..nt { if t > 0 && t % 200 == 0 { s.push_str(" | "); } s.push_str(&format!("'t{}' ", t)); }
+    s.push_str(";\n");
+    s
+}
+fn eco(np: usize) -> String {
+    // Eco grammar with one implicit token and np user productions
+    let mut s = String::from("%start R\n%implicit_tokens ws\n%%\nR: ");
+    for p in 0..np { if p > 0 { s.push_str(" | "); } s.push_str(&format!("'a' {}", "'b' ".repeat(p % 7))); if p >= 7 { s.push_str(&format!("'c{}'", p % 5)); for _ in 0..(p / 35) { s.push_str(" 'd'"); } } }
+    s.push_str(";\n");
+    s
+}
 fn many_tokens(nt: usize) -> String {
     let mut s = String::from("%start R\n%%\nR: ");
     for t in 0..nt { if t > 0 { s.push_str(" | "); } s.push_str(&format!("'t{}'", t)); }
@@ -46,8 +60,8 @@ fn many_tokens(nt: usize) -> String {
 }
 
 pub fn run_u8(kind: &str, n: usize) -> Outcome {
-    let src = match kind { "prods" => simple(n), "rules" => one_prod_rules(n), _ => many_tokens(n) };
-    let yk = YaccKind::Original(YaccOriginalActionKind::NoAction);
+    let src = match kind { "prods" => simple(n), "rules" => one_prod_rules(n), "tokens1" => tokens_one_prod(n), "eco" => eco(n), _ => many_tokens(n) };
+    let yk = if kind == "eco" { YaccKind::Eco } else { YaccKind::Original(YaccOriginalActionKind::NoAction) };
     // reference sizes from the u32 build
     let g32 = YaccGrammar::<u32>::new_with_storaget(yk, &src).expect("u32 grammar");
     let exp = (usize::from(g32.rules_len()), usize::from(g32.tokens_len()), usize::from(g32.prods_len()));
@@ -67,7 +81,7 @@ pub fn run_u8(kind: &str, n: usize) -> Outcome {
 }
 
 pub fn search(tag: &str, _tier: &str) -> Option<Value> {
-    let order: [&str; 3] = if tag.contains("token") { ["tokens", "rules", "prods"] } else if tag.contains("production") || tag.contains("prods") { ["prods", "rules", "tokens"] } else { ["rules", "prods", "tokens"] };
+    let order: [&str; 5] = if tag.contains("token") { ["tokens1", "tokens", "rules", "prods", "eco"] } else if tag.contains("production") || tag.contains("prods") { ["prods", "eco", "rules", "tokens", "tokens1"] } else { ["rules", "prods", "tokens", "tokens1", "eco"] };
     for kind in order {
         for n in 120..=258usize {
             let o = run_u8(kind, n);
